@@ -201,6 +201,10 @@ class Evaluator:
             d = info['def'] or ''
             if n in ('is_none', 'is_some') and 'option::Option' in d and t[2]:
                 v = self.ev(t[2][0], depth + 1)
+                if not isinstance(v, tuple):
+                    dd = self.ev(('discr', t[2][0]), depth + 1)
+                    if dd in (0, 1) and not isinstance(dd, bool):
+                        v = ('optsome', None) if dd == 1 else ('optnone',)
                 if isinstance(v, tuple):
                     none = (v[0] == 'optnone') or (v[0] == 'optord' and v[1] == NONE)
                     return none if n == 'is_none' else (not none)
@@ -278,7 +282,16 @@ class Evaluator:
         m = {('upvar', k): v for k, v in enumerate(clo[2])}
         if payload is not None:
             m[('param', 2)] = payload
-        return self.ev(subst(interp(self.facts, cb).ret, m), depth + 1)
+        rt = subst(interp(self.facts, cb).ret, m)
+        v = self.ev(rt, depth + 1)
+        if v is None:
+            # an Option-valued result the evaluator cannot compute but whose presence an atom decides
+            d = self.ev(('discr', rt), depth + 1)
+            if d == 0 and not isinstance(d, bool):
+                return ('optnone',)
+            if d == 1 and not isinstance(d, bool):
+                return ('optsome', None)
+        return v
 
     def _ev_combinator(self, t, n, d, depth):
         args = t[2]
